@@ -38,7 +38,7 @@ TypeOfVal(v) ==
 (* C01: v has type T, and every component has the type its container declares *)
 RECURSIVE WellFormed(_)
 WellFormed(v) ==
-  CASE v.k = "num" -> v.v.k \in {"fin", "big", "inf", "nan", "tau", "raw"}
+  CASE v.k = "num" -> v.v.k \in {"fin", "big", "inf", "nan", "tau", "nzero", "raw"}
     [] v.k \in {"str", "bool"} -> TRUE
     [] v.k = "time" -> TRUE
     [] v.k = "list" -> v.ty.k = "list" /\ \A i \in 1..Len(v.els) :
